@@ -41,7 +41,10 @@ pub(crate) struct Rec {
 
 impl Rec {
     pub fn new(ty: u16, body: &[u8]) -> Rec {
-        Rec { ty, body: body.to_vec() }
+        Rec {
+            ty,
+            body: body.to_vec(),
+        }
     }
     pub fn kind(&self) -> u16 {
         self.ty & 0x7fff
@@ -50,7 +53,12 @@ impl Rec {
         if self.body.len() % 2 != 0 {
             return None;
         }
-        Some(self.body.chunks(2).map(|c| u16::from_be_bytes([c[0], c[1]])).collect())
+        Some(
+            self.body
+                .chunks(2)
+                .map(|c| u16::from_be_bytes([c[0], c[1]]))
+                .collect(),
+        )
     }
 }
 
@@ -81,7 +89,10 @@ pub(crate) fn dec(mut b: &[u8]) -> Option<Vec<Rec>> {
         if b.len() < 4 + len {
             return None;
         }
-        out.push(Rec { ty, body: b[4..4 + len].to_vec() });
+        out.push(Rec {
+            ty,
+            body: b[4..4 + len].to_vec(),
+        });
         b = &b[4 + len..];
     }
     Some(out)
@@ -89,7 +100,9 @@ pub(crate) fn dec(mut b: &[u8]) -> Option<Vec<Rec>> {
 
 /// Read one message (records up to and including the first End-Of-Message record) from
 /// a stream with the harness' own framing code. `Err(partial)` on EOF / IO error.
-pub(crate) async fn read_message<R: AsyncRead + Unpin>(r: &mut R) -> Result<Vec<Rec>, (Vec<Rec>, String)> {
+pub(crate) async fn read_message<R: AsyncRead + Unpin>(
+    r: &mut R,
+) -> Result<Vec<Rec>, (Vec<Rec>, String)> {
     let mut out = Vec::new();
     loop {
         let mut h = [0u8; 4];
@@ -116,7 +129,8 @@ pub(crate) async fn read_message<R: AsyncRead + Unpin>(r: &mut R) -> Result<Vec<
 
 fn ca() -> Arc<[Certificate]> {
     tls_utils::pemfile::certs(
-        &mut include_bytes!(concat!(env!("CARGO_MANIFEST_DIR"), "/test-keys/testca.pem")).as_slice(),
+        &mut include_bytes!(concat!(env!("CARGO_MANIFEST_DIR"), "/test-keys/testca.pem"))
+            .as_slice(),
     )
     .collect::<Result<Arc<_>, _>>()
     .unwrap()
@@ -124,7 +138,11 @@ fn ca() -> Arc<[Certificate]> {
 
 fn chain() -> Vec<Certificate> {
     tls_utils::pemfile::certs(
-        &mut include_bytes!(concat!(env!("CARGO_MANIFEST_DIR"), "/test-keys/end.fullchain.pem")).as_slice(),
+        &mut include_bytes!(concat!(
+            env!("CARGO_MANIFEST_DIR"),
+            "/test-keys/end.fullchain.pem"
+        ))
+        .as_slice(),
     )
     .collect::<Result<Vec<_>, _>>()
     .unwrap()
@@ -159,7 +177,11 @@ pub(crate) fn server(accepted_versions: Vec<NtpVersion>, tokens: Vec<String>) ->
 /// The real key-exchange client.
 pub(crate) fn client(protocol_version: ProtocolVersion) -> KeyExchangeClient {
     provider();
-    KeyExchangeClient::new(&NtsClientConfig { certificates: ca(), protocol_version }).unwrap()
+    KeyExchangeClient::new(&NtsClientConfig {
+        certificates: ca(),
+        protocol_version,
+    })
+    .unwrap()
 }
 
 /// What the real client is configured to offer (read from its private fields), as wire ids.
@@ -221,7 +243,11 @@ pub(crate) fn export<T>(
         let a = algorithm.to_be_bytes();
         let context = [p[0], p[1], a[0], a[1], dir];
         let key = conn
-            .export_keying_material(vec![0u8; len], b"EXPORTER-network-time-security", Some(&context))
+            .export_keying_material(
+                vec![0u8; len],
+                b"EXPORTER-network-time-security",
+                Some(&context),
+            )
             .ok()?;
         out.push(key);
     }
@@ -273,7 +299,10 @@ pub(crate) async fn parse_record<R: AsyncRead + Unpin>(r: R) -> Parsed {
             let mut out = Vec::new();
             match rec.serialize(&mut out).await {
                 Ok(()) => Ok((format!("{rec:?}"), out)),
-                Err(e) => Ok((format!("{rec:?}"), format!("!serialize:{:?}", e.kind()).into_bytes())),
+                Err(e) => Ok((
+                    format!("{rec:?}"),
+                    format!("!serialize:{:?}", e.kind()).into_bytes(),
+                )),
             }
         }
         Err(e) => Err(io_err(&e)),
@@ -282,13 +311,27 @@ pub(crate) async fn parse_record<R: AsyncRead + Unpin>(r: R) -> Parsed {
 
 fn canon_request(r: &Request<'_>) -> String {
     match r {
-        Request::KeyExchange { algorithms, protocols, denied_servers } => format!(
+        Request::KeyExchange {
+            algorithms,
+            protocols,
+            denied_servers,
+        } => format!(
             "KeyExchange{{algorithms:{:?},protocols:{:?},denied:{:?}}}",
             algorithms.iter().map(|a| u16::from(*a)).collect::<Vec<_>>(),
             protocols.iter().map(|p| u16::from(*p)).collect::<Vec<_>>(),
-            denied_servers.iter().map(|d| d.to_string()).collect::<Vec<_>>(),
+            denied_servers
+                .iter()
+                .map(|d| d.to_string())
+                .collect::<Vec<_>>(),
         ),
-        Request::FixedKey { authentication, c2s_key, s2c_key, algorithm, protocol, keep_alive } => format!(
+        Request::FixedKey {
+            authentication,
+            c2s_key,
+            s2c_key,
+            algorithm,
+            protocol,
+            keep_alive,
+        } => format!(
             "FixedKey{{auth:{:?},c2s:{:?},s2c:{:?},algorithm:{},protocol:{},keep_alive:{}}}",
             authentication,
             c2s_key.key_bytes(),
@@ -297,7 +340,12 @@ fn canon_request(r: &Request<'_>) -> String {
             u16::from(*protocol),
             keep_alive
         ),
-        Request::Support { authentication, wants_protocols, wants_algorithms, keep_alive } => format!(
+        Request::Support {
+            authentication,
+            wants_protocols,
+            wants_algorithms,
+            keep_alive,
+        } => format!(
             "Support{{auth:{authentication:?},wants_protocols:{wants_protocols},wants_algorithms:{wants_algorithms},keep_alive:{keep_alive}}}"
         ),
     }
